@@ -256,6 +256,13 @@ func (bp *bprover) sameLen(a, b ssa.Value) bool {
 	if x, ok := copyOf(b); ok && bp.sameLen(a, x) {
 		return true
 	}
+	// a package helper that hands back a list as long as the one it was given (sortedCopy(values))
+	if x, ok := bp.lenPreservedArg(a); ok && bp.sameLen(x, b) {
+		return true
+	}
+	if x, ok := bp.lenPreservedArg(b); ok && bp.sameLen(a, x) {
+		return true
+	}
 	la, ok1 := a.(*ssa.UnOp)
 	lb, ok2 := b.(*ssa.UnOp)
 	if ok1 && ok2 && la.Op == token.MUL && lb.Op == token.MUL && la.X == lb.X {
@@ -2059,4 +2066,47 @@ func elementSource(a ssa.Value) ssa.Value {
 		return ld.X // the variable holding the list
 	}
 	return coll
+}
+
+// lenPreservedArg: v is a call of a package function every return of which is a slice made with the length of one and
+// the same parameter (or a copy of it); returns the argument passed for that parameter.
+func (bp *bprover) lenPreservedArg(v ssa.Value) (ssa.Value, bool) {
+	call, ok := v.(*ssa.Call)
+	if !ok {
+		return nil, false
+	}
+	h := call.Common().StaticCallee()
+	if h == nil || h.Blocks == nil || h.Pkg == nil || call.Parent() == nil || h.Pkg != call.Parent().Pkg || h.Signature.Results().Len() != 1 {
+		return nil, false
+	}
+	which := -1
+	for _, rb := range returnBlocks(h) {
+		ret := rb.Instrs[len(rb.Instrs)-1].(*ssa.Return)
+		if len(ret.Results) != 1 {
+			return nil, false
+		}
+		found := -1
+		for pi, p := range h.Params {
+			if _, isSl := types.Unalias(p.Type()).Underlying().(*types.Slice); !isSl {
+				continue
+			}
+			r := resolveLocal(stripConv(ret.Results[0]))
+			if ms, isMs := r.(*ssa.MakeSlice); isMs {
+				if inner, isLen := lenOperand(ms.Len); isLen && resolveLocal(stripConv(inner)) == ssa.Value(p) {
+					found = pi
+				}
+			}
+			if x, isCp := copyOf(r); isCp && resolveLocal(stripConv(x)) == ssa.Value(p) {
+				found = pi
+			}
+		}
+		if found < 0 || (which >= 0 && which != found) {
+			return nil, false
+		}
+		which = found
+	}
+	if which < 0 || which >= len(call.Common().Args) {
+		return nil, false
+	}
+	return call.Common().Args[which], true
 }
